@@ -185,19 +185,38 @@ func execC05(c *Ctx) {
 		}
 	}
 	live := cx.liveSet()
+	var dbgDump func()
+	dbgNext := []time.Duration{tf + time.Second, tf + 3*time.Second, tf + 8*time.Second, tf + 20*time.Second}
+	if os.Getenv("VERIF_DEBUG") != "" {
+		dump := func() {
+			for _, n := range live {
+				n.m.nodeLock.RLock()
+				var parts []string
+				for name := range n.m.nodeMap {
+					v := viewLocked(n.m, name)
+					parts = append(parts, fmt.Sprintf("%s=%s@%d", name, stateName(v.State), v.Inc))
+				}
+				n.m.nodeLock.RUnlock()
+				sort.Strings(parts)
+				fmt.Fprintf(os.Stderr, "VIEW t=%v %s: %v\n", c.Sim.Now(), n.name, parts)
+			}
+		}
+		dump()
+		dbgDump = dump
+	}
 	liveNames := map[string]*SimNode{}
 	for _, n := range live {
 		liveNames[n.name] = n
 	}
 	// precondition: the undirected "lists" graph on live nodes is connected
-	connected := func(aliveOnly bool) bool {
+	connectedBy := func(edgeOK func(h *SimNode, peer string) bool) bool {
 		if len(live) <= 1 {
 			return true
 		}
 		adj := map[string]map[string]bool{}
 		for _, n := range live {
 			for _, m := range n.memberNames() {
-				if aliveOnly && n.view(m).State != StateAlive {
+				if edgeOK != nil && !edgeOK(n, m) {
 					continue
 				}
 				if _, ok := liveNames[m]; ok && m != n.name {
@@ -226,6 +245,12 @@ func execC05(c *Ctx) {
 		}
 		return len(seen) == len(live)
 	}
+	connected := func(aliveOnly bool) bool {
+		if !aliveOnly {
+			return connectedBy(nil)
+		}
+		return connectedBy(func(h *SimNode, peer string) bool { return h.view(peer).State == StateAlive })
+	}
 	pre := connected(false)
 	if !pre {
 		c.Reach("precondition_false")
@@ -236,6 +261,39 @@ func execC05(c *Ctx) {
 	if pre && !connected(true) {
 		sig = "C05/connected-only-via-suspect-record"
 		c.Reach("connected_only_via_suspect_record")
+	}
+	// Known finding C05/connected-only-via-stale-incarnation-record: every connecting record is
+	// suspect, or alive at an incarnation k the peer has already left behind while an accusation
+	// (suspect/dead) at that same k is still held by a live node. Such an accusation overrides the
+	// stale alive record wherever it arrives, and the accused ignores it (k is below its own
+	// incarnation) instead of refuting again; the refutation it issued earlier has used up its
+	// retransmissions, and the accused never contacts the holder, which it records as dead.
+	if pre && sig == "" {
+		accusedAt := func(peer string, k uint32) bool {
+			for _, n := range live {
+				v := n.view(peer)
+				if v.Present && v.Inc == k && (v.State == StateSuspect || v.State == StateDead) {
+					return true
+				}
+			}
+			return false
+		}
+		sound := connectedBy(func(h *SimNode, peer string) bool {
+			v := h.view(peer)
+			owner := liveNames[peer]
+			if owner == nil || owner.m == nil {
+				return true // not an edge between live nodes; ignored by the caller
+			}
+			if v.State != StateAlive {
+				return false
+			}
+			cur := owner.m.incarnation.Load()
+			return v.Inc >= cur || !accusedAt(peer, v.Inc)
+		})
+		if !sound {
+			sig = "C05/connected-only-via-stale-incarnation-record"
+			c.Reach("connected_only_via_stale_incarnation_record")
+		}
 	}
 	converged := func() (bool, string) {
 		for _, n := range live {
@@ -277,6 +335,10 @@ func execC05(c *Ctx) {
 	c.Sim.RunUntil(tf+w, func() bool {
 		if c.Failed() {
 			return true
+		}
+		if dbgDump != nil && len(dbgNext) > 0 && c.Sim.Now() >= dbgNext[0] {
+			dbgNext = dbgNext[1:]
+			dbgDump()
 		}
 		if cx.stepCount%16 != 0 {
 			return false
